@@ -289,16 +289,16 @@ def gen_exact(rng, tier):
             sh = rng.choice([0, 1, 63, 64, 65, 127, 128, rng.randrange(0, 64), rng.randrange(0, 5000), 64 * rng.randrange(0, 50), 1 << 40])
             yield from both("mpf_mul_2exp %x %x %s %x" % (rprec, mode, F(u), sh), okal)
             yield from both("mpf_div_2exp %x %x %s %x" % (rprec, mode, F(u), sh), okal)
-            yield from both("mpf_integer_p %s" % F(u))
+            yield from both("mpf_integer_p13 %s" % F(u))
             v = rand_opnd(rng, rprec, exp=rng.choice([e, e, e + 1, e - 1]), neg=rng.choice([u[1], u[1], not u[1]]))
-            yield from both("mpf_cmp %s %s" % (F(u), F(v)))
+            yield from both("mpf_cmp13 %s %s" % (F(u), F(v)))
             w = (v[0], u[1], u[2], [0] * rng.randrange(0, 3) + list(u[3]))          # equal value, extra low zero limbs
-            yield from both("mpf_cmp %s %s" % (F(u), F(w)))
-            yield from both("mpf_cmp %s %s" % (F(w), F(u)))
+            yield from both("mpf_cmp13 %s %s" % (F(u), F(w)))
+            yield from both("mpf_cmp13 %s %s" % (F(w), F(u)))
             l2 = list(u[3]); i = rng.randrange(len(l2)); l2[i] ^= 1 << rng.randrange(64)
             if l2[-1]:
                 w2 = (v[0], u[1], u[2], l2)
-                yield from both("mpf_cmp %s %s" % (F(u), F(w2)))
+                yield from both("mpf_cmp13 %s %s" % (F(u), F(w2)))
                 nb = rng.choice([1, 2, 63, 64, 65, 64 * len(l2), 64 * len(l2) - 1, 64 * (len(l2) - i), 64 * (len(l2) - i) - 70 if len(l2) - i > 1 else 5, rng.randrange(1, 64 * len(l2) + 130)])
                 yield "mpf_eq %s %s %x" % (F(u), F(w2), max(nb, 1))
                 yield "mpf_eq %s %s %x" % (F(u), F(w), max(nb, 1))
@@ -312,7 +312,7 @@ def gen_exact(rng, tier):
         for op in ("mpf_neg", "mpf_abs", "mpf_set", "mpf_floor", "mpf_ceil", "mpf_trunc"):
             yield from both("%s %x 0 %s" % (op, rprec, z))
         yield from both("mpf_mul_2exp %x 0 %s 5" % (rprec, z)); yield from both("mpf_div_2exp %x 1 %s 45" % (rprec, z))
-        yield from both("mpf_integer_p %s" % z); yield from both("mpf_cmp %s %s" % (z, z))
+        yield from both("mpf_integer_p13 %s" % z); yield from both("mpf_cmp13 %s %s" % (z, z))
 
 def gen_set(rng, tier):
     reps = 60 if tier == "quick" else 400
@@ -332,7 +332,7 @@ def gen_set(rng, tier):
         ds = [0, 1 << 63, 1, (1 << 52) - 1, 1 << 52, (1 << 52) | 1, 0x7fefffffffffffff, 0x7ff0000000000000, 0xfff0000000000000, 0x7ff8000000000001, 0x3ff0000000000000, 0xbff0000000000000]
         ds += [((1023 + k) << 52) | rng.choice([0, 1, (1 << 52) - 1, rng.getrandbits(52)]) | (rng.getrandbits(1) << 63) for k in range(-70, 71)]
         ds += [rng.getrandbits(64) for _ in range(reps)] + [rng.getrandbits(52 - rng.randrange(0, 52)) for _ in range(20)]
-        for b in ds: yield from both("mpf_set_d %x %x" % (rprec, b))
+        for b in ds: yield from both("mpf_set_d13 %x %x" % (rprec, b))
 
 def gen_all(rng, tier):
     yield from gen_prec(rng, tier)
